@@ -40,6 +40,7 @@ theorem allRowsInRange_expected (lo hi a b : Int) :
 theorem overlaps_expected (lo hi a b : Int) :
     overlaps lo hi a b = (decide (lo ≤ b) && decide (hi ≥ a)) := by rfl
 
+/-! ## data expectations (tools/c09_refresh_facts.py) -/
 
 theorem hintNames_expected : hintNames = ["DefaultNoHint", "FilterNullColumn", "ExactStatisticQuery", "FullSeriesQuery", "SpecificSeriesQuery", "QueryPushDown"] := by rfl
 
@@ -99,6 +100,40 @@ theorem src_float_merge_expected : src_float_merge = "{ m.addMin(other.minV, oth
 
 theorem src_isPreAggRead_expected : src_isPreAggRead = "{ return len(l.ctx.ops) > 0 }" := by rfl
 
+theorem src_firstTieTakesBase_expected : src_firstTieTakesBase = "{ if _, ok := newRecV.(bool); ok { if _, ok = baseRecV.(bool); ok { return compareMin(baseRecV, newRecV) } } return compareMin(newRecV, baseRecV) }" := by rfl
+
+theorem src_compareMin_expected : src_compareMin = "{ switch newRecV.(type) { case int64: base, ok := baseRecV.(int64) if !ok { return true } return newRecV.(int64) < base case float64: base, ok := baseRecV.(float64) if !ok { return true } return newRecV.(float64) < base case string: base, ok := baseRecV.(string) if !ok { return true } return newRecV.(string) < base case bool: base, ok := baseRecV.(bool) if !ok { return true } if (!base && !newRecV.(bool)) || (base && newRecV.(bool)) { return false } else if !newRecV.(bool) { return true } return false default: return true } }" := by rfl
+
+theorem src_minBool_expected : src_minBool = "{ newRecV, newRecTime := newRec.RecMeta.ColMeta[idx].Min() baseRecV, baseRecTime := baseRec.RecMeta.ColMeta[idx].Min() base, ok := baseRecV.(bool) if !ok { panic(\"meta Min isn't base type\") } if (!base && !newRecV.(bool)) || (base && newRecV.(bool)) { if baseRecTime < newRecTime { newRec.RecMeta.ColMeta[idx].SetMin(baseRecV, baseRecTime) newRec.ColVals = baseRec.CopyColVals() return true } else { return false } } else if !base { newRec.RecMeta.ColMeta[idx].SetMin(baseRecV, baseRecTime) newRec.ColVals = baseRec.CopyColVals() return false } else { return true } }" := by rfl
+
+theorem src_maxBool_expected : src_maxBool = "{ newRecV, newRecTime := newRec.RecMeta.ColMeta[idx].Max() baseRecV, baseRecTime := baseRec.RecMeta.ColMeta[idx].Max() base, ok := baseRecV.(bool) if !ok { panic(\"meta Max isn't base type\") } if (!base && !newRecV.(bool)) || (base && newRecV.(bool)) { if baseRecTime < newRecTime { newRec.RecMeta.ColMeta[idx].SetMax(baseRecV, baseRecTime) newRec.ColVals = baseRec.CopyColVals() return true } else { return false } } else if base { newRec.RecMeta.ColMeta[idx].SetMax(baseRecV, baseRecTime) newRec.ColVals = baseRec.CopyColVals() return true } else { return false } }" := by rfl
+
+theorem src_int_marshal_expected : src_int_marshal = "{ if m.values[countIndex] == 1 { dst = numberenc.MarshalInt64Append(dst, m.values[minIndex]) dst = numberenc.MarshalInt64Append(dst, m.values[minTIndex]) return dst } if IsChunkMetaCompressSelf() { size := len(dst) dst = m.VLCEncode(dst) if PreAggOnlyOneRow(dst[size:]) { dst = append(dst, 0) return dst } if len(dst)-size < m.size() { return dst } dst = dst[:size] } for _, val := range m.values { dst = numberenc.MarshalInt64Append(dst, val) } return dst }" := by rfl
+
+theorem src_float_marshal_expected : src_float_marshal = "{ if m.countV == 1 { dst = numberenc.MarshalFloat64(dst, m.minV) dst = numberenc.MarshalInt64Append(dst, m.minTime) return dst } if IsChunkMetaCompressSelf() { size := len(dst) dst = m.VLCEncode(dst) if PreAggOnlyOneRow(dst[size:]) { dst = append(dst, 0) return dst } if len(dst)-size < m.size() { return dst } dst = dst[:size] } dst = numberenc.MarshalFloat64(dst, m.minV) dst = numberenc.MarshalFloat64(dst, m.maxV) dst = numberenc.MarshalInt64Append(dst, m.minTime) dst = numberenc.MarshalInt64Append(dst, m.maxTime) dst = numberenc.MarshalFloat64(dst, m.sumV) dst = numberenc.MarshalInt64Append(dst, m.countV) return dst }" := by rfl
+
+theorem src_bool_marshal_expected : src_bool_marshal = "{ dst = numberenc.MarshalInt64Append(dst, m.counts) dst = numberenc.MarshalInt64Append(dst, m.minTime) dst = numberenc.MarshalInt64Append(dst, m.maxTime) dst = append(dst, byte(m.minV)) dst = append(dst, byte(m.maxV)) return dst }" := by rfl
+
+theorem src_string_marshal_expected : src_string_marshal = "{ dst = numberenc.MarshalInt64Append(dst, m.counts) return dst }" := by rfl
+
+theorem src_time_marshal_expected : src_time_marshal = "{ dst = numberenc.MarshalUint32Append(dst, b.countV) return dst }" := by rfl
+
+theorem src_firstLast_unmarshalPreAgg_expected : src_firstLast_unmarshalPreAgg = "{ var ab PreAggBuilder switch col.ty { case influx.Field_Type_Int: ab = r.getIntPreAgg() case influx.Field_Type_Float: ab = r.getFloatPreAgg() default: return nil, false } _, err := ab.unmarshal(col.preAgg) if err != nil { logger.GetLogger().Error(\"failed to unmarshal pre agg\", zap.Binary(\"data\", col.preAgg), zap.Error(err)) return nil, false } return ab, true }" := by rfl
+
+theorem src_mergeIntegerPreAgg_expected : src_mergeIntegerPreAgg = "{ ab, ok := c.colBuilder.intPreAggBuilder.(*IntegerPreAgg) if !ok || ab == nil { ab = &IntegerPreAgg{} } if c.chunkSegments > c.Conf.maxSegmentLimit { cm.preAgg = ab.marshal(cm.preAgg[:0]) return nil } aggBuilder := c.ctx.preAggBuilders.IntegerBuilder() aggBuilder.reset() for i := 0; i < len(c.chunkItrs); i++ { itr := c.chunkItrs[i] idx := fieldIndex[i] if idx >= 0 { srcMeta := &itr.curtChunkMeta.colMeta[idx] ab.reset() if i == 0 { if _, err := aggBuilder.unmarshal(srcMeta.preAgg); err != nil { c.log.Error(\"unmarshal preagg fail\", zap.String(\"column\", ref.String())) return err } continue } else { if _, err := ab.unmarshal(srcMeta.preAgg); err != nil { c.log.Error(\"unmarshal preagg fail\", zap.String(\"column\", ref.String())) return err } } aggBuilder.merge(ab) } } cm.preAgg = aggBuilder.marshal(cm.preAgg[:0]) return nil }" := by rfl
+
+theorem src_mergeFloatPreAgg_expected : src_mergeFloatPreAgg = "{ ab, ok := c.colBuilder.floatPreAggBuilder.(*FloatPreAgg) if !ok || ab == nil { ab = &FloatPreAgg{} } if c.chunkSegments > c.Conf.maxSegmentLimit { cm.preAgg = ab.marshal(cm.preAgg[:0]) return nil } aggBuilder := c.ctx.preAggBuilders.FloatBuilder() aggBuilder.reset() for i := 0; i < len(c.chunkItrs); i++ { itr := c.chunkItrs[i] idx := fieldIndex[i] if idx >= 0 { srcMeta := &itr.curtChunkMeta.colMeta[idx] ab.reset() if i == 0 { if _, err := aggBuilder.unmarshal(srcMeta.preAgg); err != nil { c.log.Error(\"unmarshal preagg fail\", zap.String(\"column\", ref.String())) return err } continue } if _, err := ab.unmarshal(srcMeta.preAgg); err != nil { c.log.Error(\"unmarshal preagg fail\", zap.String(\"column\", ref.String())) return err } aggBuilder.merge(ab) } } cm.preAgg = aggBuilder.marshal(cm.preAgg[:0]) return nil }" := by rfl
+
+theorem src_mergeBooleanPreAgg_expected : src_mergeBooleanPreAgg = "{ ab := c.colBuilder.boolPreAggBuilder if c.chunkSegments > c.Conf.maxSegmentLimit { cm.preAgg = ab.marshal(cm.preAgg[:0]) return nil } aggBuilder := c.ctx.preAggBuilders.boolBuilder aggBuilder.reset() for i := 0; i < len(c.chunkItrs); i++ { itr := c.chunkItrs[i] idx := fieldIndex[i] if idx >= 0 { srcMeta := &itr.curtChunkMeta.colMeta[idx] ab.reset() if i == 0 { if _, err := aggBuilder.unmarshal(srcMeta.preAgg); err != nil { c.log.Error(\"unmarshal preagg fail\", zap.String(\"column\", ref.String())) return err } continue } if _, err := ab.unmarshal(srcMeta.preAgg); err != nil { c.log.Error(\"unmarshal preagg fail\", zap.String(\"column\", ref.String())) return err } bv := float64(0) v, t := ab.min() min := v.(bool) if min { bv = 1 } aggBuilder.addMin(bv, t) v, t = ab.max() max := v.(bool) bv = 0 if max { bv = 1 } aggBuilder.addMax(bv, t) aggBuilder.addCount(ab.count()) } } cm.preAgg = aggBuilder.marshal(cm.preAgg[:0]) return nil }" := by rfl
+
+theorem src_mergeStringPreAgg_expected : src_mergeStringPreAgg = "{ ab := c.colBuilder.stringPreAggBuilder if c.chunkSegments > c.Conf.maxSegmentLimit { cm.preAgg = ab.marshal(cm.preAgg[:0]) return nil } aggBuilder := c.ctx.preAggBuilders.stringBuilder aggBuilder.reset() for i := 0; i < len(c.chunkItrs); i++ { itr := c.chunkItrs[i] idx := fieldIndex[i] if idx >= 0 { srcMeta := &itr.curtChunkMeta.colMeta[idx] ab.reset() if i == 0 { if _, err := aggBuilder.unmarshal(srcMeta.preAgg); err != nil { c.log.Error(\"unmarshal preagg fail\", zap.String(\"column\", ref.String())) return err } continue } if _, err := ab.unmarshal(srcMeta.preAgg); err != nil { c.log.Error(\"unmarshal preagg fail\", zap.String(\"column\", ref.String())) return err } aggBuilder.addCount(ab.count()) } } cm.preAgg = aggBuilder.marshal(cm.preAgg[:0]) return nil }" := by rfl
+
+theorem src_readMemTableMetaRecord_expected : src_readMemTableMetaRecord = "{ if r.record == nil { return } schema := r.record.Schema if r.record.RecMeta == nil { r.record.RecMeta = &record.RecMeta{} } if cap(r.record.ColMeta) < len(schema)-1 { r.record.ColMeta = make([]record.ColMeta, len(schema)-1) } timeCol := r.record.TimeColumn() descending := r.record.RowNums() > 1 && r.record.Time(0) > r.record.Time(r.record.RowNums()-1) var done []int for _, call := range ops { if r.record == nil { return } idx := r.record.Schema.FieldIndex(call.Ref.Val) if idx < 0 { continue } if slices.Contains(done, idx) { continue } switch r.record.Schema[idx].Type { case influx.Field_Type_Int: r.setIntColumnMeta(timeCol, idx, r.record, ops) case influx.Field_Type_String, influx.Field_Type_Tag: r.setStringColumnMeta(timeCol, idx, r.record, ops) case influx.Field_Type_Float: r.setFloatColumnMeta(timeCol, idx, r.record, ops) case influx.Field_Type_Boolean: r.setBoolColumnMeta(timeCol, idx, r.record, ops) default: return } if r.record == nil { return } done = append(done, idx) if descending { first, firstTime := r.record.ColMeta[idx].First() last, lastTime := r.record.ColMeta[idx].Last() r.record.ColMeta[idx].SetFirst(last, lastTime) r.record.ColMeta[idx].SetLast(first, firstTime) } } }" := by rfl
+
+theorem src_setIntColumnMeta_expected : src_setIntColumnMeta = "{ timeCols := timeColVals.IntegerValues() colVals := rec.ColVals[idx] cols := colVals.IntegerValues() if cols == nil { if len(ops) == 1 { r.reset() } return } var minV, maxV, minVTime, maxVTime, sumV, countV int64 var colIndex, lastIndex, firstIndex, minIndex, maxIndex int nilCount := 0 colIndex = -1 lastIndex, firstIndex, minIndex, maxIndex = -1, -1, -1, -1 firstInit := false var lastTime int64 for index, timeCol := range timeCols { if colVals.IsNil(index) { nilCount += 1 continue } if !firstInit { minV = cols[index-nilCount] minVTime = timeCol maxV = cols[index-nilCount] maxVTime = timeCol firstIndex, minIndex, maxIndex = index, index, index firstInit = true } countV += 1 colIndex += 1 if colIndex == 0 { rec.ColMeta[idx].SetFirst(cols[index-nilCount], timeCol) firstIndex = index } if cols[index-nilCount] < minV || (cols[index-nilCount] == minV && minVTime > timeCol) { minV = cols[index-nilCount] minVTime = timeCol minIndex = index } if cols[index-nilCount] > maxV || (cols[index-nilCount] == maxV && maxVTime > timeCol) { maxV = cols[index-nilCount] maxVTime = timeCol maxIndex = index } sumV += cols[index-nilCount] lastIndex = colIndex lastTime = timeCol } rec.ColMeta[idx].SetLast(cols[lastIndex], lastTime) rec.ColMeta[idx].SetMin(minV, minVTime) rec.ColMeta[idx].SetMax(maxV, maxVTime) rec.ColMeta[idx].SetCount(countV) rec.ColMeta[idx].SetSum(sumV) setColValInAux(timeColVals, idx, ops, rec, minIndex, firstIndex, maxIndex, lastIndex) }" := by rfl
+
+theorem src_setBoolColumnMeta_expected : src_setBoolColumnMeta = "{ timeCols := timeColVals.IntegerValues() colVals := rec.ColVals[idx] cols := colVals.BooleanValues() if cols == nil { if len(ops) == 1 { r.reset() } return } var minVTime, maxVTime, countV int64 var minV, maxV bool var colIndex, lastIndex, firstIndex, minIndex, maxIndex int nilCount := 0 lastIndex, firstIndex, minIndex, maxIndex = -1, -1, -1, -1 countV = 0 colIndex = -1 firstInit := false var lastTime int64 for index, timeCol := range timeCols { if colVals.IsNil(index) { nilCount += 1 continue } if !firstInit { minV = cols[index-nilCount] minVTime = timeCol maxV = cols[index-nilCount] maxVTime = timeCol firstInit = true firstIndex, minIndex, maxIndex = index, index, index } countV += 1 colIndex += 1 if colIndex == 0 { rec.ColMeta[idx].SetFirst(cols[index-nilCount], timeCol) } if minV && !cols[index-nilCount] { minV = cols[index-nilCount] minVTime = timeCol minIndex = index } if !maxV && cols[index-nilCount] { maxV = cols[index-nilCount] maxVTime = timeCol maxIndex = index } lastIndex = colIndex lastTime = timeCol } rec.ColMeta[idx].SetLast(cols[lastIndex], lastTime) rec.ColMeta[idx].SetMin(minV, minVTime) rec.ColMeta[idx].SetMax(maxV, maxVTime) rec.ColMeta[idx].SetCount(countV) setColValInAux(timeColVals, idx, ops, rec, minIndex, firstIndex, maxIndex, lastIndex) }" := by rfl
+
 theorem src_countMeta_expected : src_countMeta = "{ newRecV := newRec.RecMeta.ColMeta[idx].Count() baseRecV := baseRec.RecMeta.ColMeta[idx].Count() if IsInterfaceNil(baseRecV) { return } if IsInterfaceNil(newRecV) { newRec.RecMeta.ColMeta[idx].SetCount(baseRecV) return } switch newRecV.(type) { case int64: base, ok := baseRecV.(int64) if !ok { panic(\"meta count isn't int64 type\") } newRec.RecMeta.ColMeta[idx].SetCount(base + newRecV.(int64)) return case float64: base, ok := baseRecV.(float64) if !ok { panic(\"meta count isn't float64 type\") } newRec.RecMeta.ColMeta[idx].SetCount(base + newRecV.(float64)) return default: panic(\"meta can't count\") } }" := by rfl
 
 theorem src_sumMeta_expected : src_sumMeta = "{ newRecV := newRec.RecMeta.ColMeta[idx].Sum() baseRecV := baseRec.RecMeta.ColMeta[idx].Sum() if IsInterfaceNil(baseRecV) { return } if IsInterfaceNil(newRecV) { newRec.RecMeta.ColMeta[idx].SetSum(baseRecV) return } switch newRecV.(type) { case int64: base, ok := baseRecV.(int64) if !ok { panic(\"meta count isn't int64 type\") } newRec.RecMeta.ColMeta[idx].SetSum(base + newRecV.(int64)) return case float64: base, ok := baseRecV.(float64) if !ok { panic(\"meta count isn't float64 type\") } newRec.RecMeta.ColMeta[idx].SetSum(base + newRecV.(float64)) return default: panic(\"meta can't sum\") } }" := by rfl
@@ -111,7 +146,7 @@ theorem conds_minMeta_expected : conds_minMeta = ["IsInterfaceNil(baseRecV)", "I
 
 theorem conds_maxMeta_expected : conds_maxMeta = ["IsInterfaceNil(baseRecV)", "IsInterfaceNil(newRecV)", "!ok", "newRecV.(int64) < base || (newRecV.(int64) == base && newRecTime > baseRecTime)", "!ok", "newRecV.(float64) < base || (newRecV.(float64) == base && newRecTime > baseRecTime)"] := by rfl
 
-theorem conds_firstMeta_expected : conds_firstMeta = ["IsInterfaceNil(baseRecV)", "IsInterfaceNil(newRecV) && !IsInterfaceNil(baseRecV)", "newRecTime > baseRecTime", "newRecTime == baseRecTime && compareMin(newRecV, baseRecV)"] := by rfl
+theorem conds_firstMeta_expected : conds_firstMeta = ["IsInterfaceNil(baseRecV)", "IsInterfaceNil(newRecV) && !IsInterfaceNil(baseRecV)", "newRecTime > baseRecTime", "newRecTime == baseRecTime && firstTieTakesBase(newRecV, baseRecV)"] := by rfl
 
 theorem conds_lastMeta_expected : conds_lastMeta = ["IsInterfaceNil(baseRecV)", "IsInterfaceNil(newRecV) && !IsInterfaceNil(baseRecV)", "newRecTime < baseRecTime", "newRecTime == baseRecTime && compareMin(newRecV, baseRecV)"] := by rfl
 
